@@ -115,6 +115,22 @@ def r18b(ctx):
     ent = [e for e in a.calls('std::collections::hash::map::HashMap::entry') if flow.mentions(a.arg(e, 0), lambda z: z[0] == 'field' and z[2] == 'collection_by_key')]
     ok = len(ent) == 1 and flow.mentions(a.arg(ent[0], 1), lambda z: z[0] == 'field' and z[2] == 'chunk_hash_hmac_key')
     ctx.check(ok, 'R18b', a.path, 'collection key', a.loc(ent[0]) if ent else '-', 'a registered shard is filed under the collection of its footer\'s chunk_hash_hmac_key')
+    # the index recorded for a new key is the collection count read in the same iteration as the push that creates it
+    ins = [c for c in a.calls('std::collections::hash::map::Entry::or_insert') if ent and a.rooted_at(a.arg(c, 0), ent[0])]
+    pushes = [p for p in a.calls('alloc::vec::Vec::push') if flow.mentions(a.arg(p, 0), lambda z: z[0] == 'field' and z[2] == 'shard_collections')]
+    okf = len(ins) == 1 and len(pushes) == 1
+    if okf:
+        v = a.arg(ins[0], 1)
+        lc = a.root_call(v)
+        lp = c05.loop_of(a, pushes[0])
+        okf = (v[0] == 'call' and sg(v[1]).endswith('Vec::len') and flow.mentions(v[2][0], lambda z: z[0] == 'field' and z[2] == 'shard_collections')
+               and lp is not None and lc[3] in lp[1] and not (a.cfg.reach_after([pushes[0]], cut_edges=[(x, lp[0]) for x in lp[1] if lp[0] in a.cfg.succ[x]]) & {lc[3]}))
+        # the push happens exactly when the recorded index equals that fresh count
+        eq = edges_where(a, lambda op, l, r: op == 'Eq' and ((a.rooted_at(l, ins[0]) and flow.eqv(r, v)) or (a.rooted_at(r, ins[0]) and flow.eqv(l, v))))
+        okf = okf and bool(eq) and a.cfg.must_pass(pushes[0], via_edges=eq)
+    ctx.check(okf, 'R18b', a.path, 'fresh index', a.loc(ins[0]) if ins else '-',
+              'the collection index recorded for an unseen key is shard_collections.len() read in the same loop iteration, and the collection is pushed exactly when the recorded index equals it',
+              'the index recorded for a new key can be a stale collection count (read outside the loop that pushes collections): shards of later new keys are filed under another key\'s collection')
     news = a.calls('mdb_shard::shard_file_manager::KeyedShardCollection::new')
     ctx.check(len(news) == 1 and flow.mentions(a.arg(news[0], 0), lambda z: z[0] == 'field' and z[2] == 'chunk_hash_hmac_key'), 'R18b', a.path, 'new collection', a.loc(news[0]) if news else '-', 'a new collection is created with that same key')
 
